@@ -9,13 +9,15 @@ import (
 
 	zz "github.com/cloudwego/hertz/internal/zzverif"
 	"github.com/cloudwego/hertz/pkg/app"
+	"github.com/cloudwego/hertz/pkg/network"
 	"github.com/cloudwego/hertz/pkg/network/standard"
 	"github.com/cloudwego/hertz/pkg/protocol"
+	"github.com/cloudwego/hertz/pkg/protocol/http1/resp"
 	"github.com/cloudwego/hertz/pkg/route/param"
 )
 
 // mutators applied by the handler of the first request (the "history")
-const zzNumMutators = 33
+const zzNumMutators = 35
 
 func zzMutate(c context.Context, ctx *app.RequestContext, m int, v []byte) {
 	s := string(v)
@@ -87,6 +89,10 @@ func zzMutate(c context.Context, ctx *app.RequestContext, m int, v []byte) {
 		_ = ctx.PostArgs().Len()
 	case 32:
 		ctx.Request.SetBodyRaw(append([]byte("rawreq"), v...))
+	case 33:
+		ctx.Hijack(func(c network.Conn) {})
+	case 34:
+		ctx.Response.HijackWriter(resp.NewChunkedBodyWriter(&ctx.Response, ctx.GetWriter()))
 	}
 }
 
@@ -155,6 +161,7 @@ func zzDump(ctx *app.RequestContext) []byte {
 	flag("resp-close", ctx.Response.ConnectionClose())
 	flag("resp-bodystream", ctx.Response.IsBodyStream())
 	flag("hijackwriter", ctx.Response.GetHijackWriter() != nil)
+	flag("hijacked", ctx.Hijacked())
 	// exercise slot reuse: add one entry to every key/value list and serialise it
 	qa := ctx.QueryArgs()
 	qa.Add("next", "/home")
@@ -182,6 +189,9 @@ func ZZ_C09_H1() {
 	m2 := zz.Choose("mutator2", zzNumMutators+1) // the extra value means "none"
 	arg := zz.Bytes("arg", 1)
 	zz.Assume(arg[0] > ' ' && arg[0] < 0x7f && arg[0] != ';' && arg[0] != '=' && arg[0] != '&' && arg[0] != '#' && arg[0] != '%')
+	if m1 == 33 || m2 == 33 {
+		return // a hijacked connection serves no further request (ZZ_C09_H5 covers that mutator)
+	}
 	panics := zz.Choose("recoveredPanic", 2) == 1
 	opts := zz.Choose("serverOptions", 3) // 0 defaults, 1 NoDefaultContentType, 2 DisableHeaderNamesNormalizing
 	run := func(withHistory bool) (dump []byte, out []byte) {
@@ -226,4 +236,63 @@ func ZZ_C09_H1() {
 	zz.Assert("recycled-context-indistinguishable-from-fresh", bytes.Equal(dump, freshDump))
 	// the probe's response is the tail of the output
 	zz.Assert("probe-response-identical", len(out) >= len(freshOut) && bytes.Equal(out[len(out)-len(freshOut):], freshOut))
+}
+
+// ZZ_C09_H5: recycling after an exchange that ended in an error. Connection 1 carries one
+// request whose handler applies a mutator; one write-side or read-side I/O fault is injected at a
+// symbolic operation index, so Serve leaves through one of its error exits and hands the context
+// back to the pool. Connection 2 (the pool re-issues that context) carries the probe: its dump
+// and its response bytes must equal those of a probe served with fresh objects.
+func ZZ_C09_H5() {
+	m1 := zz.Choose("mutator", zzNumMutators)
+	arg := zz.Bytes("arg", 1)
+	zz.Assume(arg[0] > ' ' && arg[0] < 0x7f && arg[0] != ';' && arg[0] != '=' && arg[0] != '&' && arg[0] != '#' && arg[0] != '%')
+	fault := zz.Choose("fault", 2) // 0 write error, 1 read error
+	at := zz.Int("faultAt")
+	zz.Assume(at >= 0 && at <= zz.Param("OPS", 3))
+	var dump, freshDump []byte
+	mk := func() (*zzCore, *Server) {
+		core := zzNewCore(nil)
+		s := zzNewServer(core)
+		s.IdleTimeout = 1
+		s.HijackConnHandle = func(c network.Conn, h app.HijackHandler) { h(c) }
+		return core, s
+	}
+	// fresh objects
+	core0, s0 := mk()
+	core0.handler = func(c context.Context, ctx *app.RequestContext) {
+		freshDump = zzDump(ctx)
+		ctx.Response.SetBodyString("probe")
+	}
+	nc0 := zz.NewNetConn([]byte(zzProbe))
+	_ = s0.Serve(context.Background(), standard.ZZNewConn(nc0))
+	// history on connection 1, probe on connection 2, same pool
+	core, s := mk()
+	n := 0
+	core.handler = func(c context.Context, ctx *app.RequestContext) {
+		n++
+		if n == 1 {
+			zzMutate(c, ctx, m1, arg)
+			return
+		}
+		dump = zzDump(ctx)
+		ctx.Response.SetBodyString("probe")
+	}
+	nc1 := zz.NewNetConn([]byte("POST /first?a=b&debug HTTP/1.1\r\nHost: f\r\nCookie: s=1; novalue\r\nContent-Length: 7\r\n\r\nabc&f=1" + zzProbe))
+	if fault == 0 {
+		nc1.WriteErrAt = at
+	} else {
+		nc1.ReadErrAt = at
+	}
+	err1 := s.Serve(context.Background(), standard.ZZNewConn(nc1))
+	zz.Cover("first-connection-ended-in-error", err1 != nil && n == 1)
+	if n != 1 {
+		return // the fault hit before the first handler, or not at all (the probe ran on connection 1)
+	}
+	nc2 := zz.NewNetConn([]byte(zzProbe))
+	_ = s.Serve(context.Background(), standard.ZZNewConn(nc2))
+	zz.Cover("reached-assert", true)
+	zz.Assert("probe-handled", len(dump) > 0 && len(freshDump) > 0)
+	zz.Assert("recycled-context-indistinguishable-from-fresh", bytes.Equal(dump, freshDump))
+	zz.Assert("probe-response-identical", bytes.Equal(nc2.Out, nc0.Out))
 }
